@@ -16,7 +16,8 @@ enum OpCode { O_CREATE = 1, O_CREATE_CREF, O_BULK, O_PARSE, O_ADD_ARR, O_ADD_OBJ
 struct Op { int8_t code = 0, a = 0, b = 0, c = 0, d = 0; };
 typedef std::vector<Op> Hist;
 
-const char* const KEYS[] = { "a", "A", "b", "B", "_", "" };   // '_' lies between 'Z' and 'a': exposes wrong case folding
+const char* const KEYS[] = { "a", "A", "b", "B", "_", "", "\xc3\xa9" };   // last: a key starting with a byte >= 0x80 (signed-char comparisons)
+const int NKEYS = 7;   // '_' lies between 'Z' and 'a': exposes wrong case folding
 const char* const PARSE_TEXTS[] = { "[1,2,3]", "{\"a\":1,\"A\":2,\"b\":3}", "[[1],{\"a\":[]}]", "{\"b\":1,\"a\":2}", "{\"a\":1,\"c\":2,\"b\":3}", "\"str\"", "[{\"a\":1,\"a\":2}]", "{\"k\":{\"b\":1,\"a\":2},\"B\":[]}" };
 const int NPARSE = sizeof PARSE_TEXTS / sizeof *PARSE_TEXTS;
 // malformed texts: every one must be rejected, and the rejection must release everything exactly once
@@ -34,13 +35,14 @@ Hist hist_from(const std::string& s) { Hist h; for (size_t i = 0; i + 4 < s.size
 std::string hist_text(const Hist& h) { std::string s; for (auto& o : h) { if (!s.empty()) s += " ; "; s += op_text(o); } return s; }
 
 struct Lits {   // borrowed memory handed to the library lives in read-only pages
-    GuardMap gm; const char* key[6]; const char* lit_s; const char* lit_long; const char* lit_empty; const char* lit_r; const char* lit_ref;
+    GuardMap gm; const char* key[7]; const char* lit_s; const char* lit_long; const char* lit_empty; const char* lit_r; const char* lit_ref;
     void init() {
         gm.create(4096);
-        std::string blob; size_t off[12]; const char* items[] = { "a", "A", "b", "B", "_", "", "s", "longer string", "", "r", "borrowed literal" };
-        for (int i = 0; i < 11; i++) { off[i] = blob.size(); blob += items[i]; blob.push_back('\0'); }
+        std::string blob; size_t off[13]; const char* items[] = { "a", "A", "b", "B", "_", "", "s", "longer string", "", "r", "borrowed literal", "\xc3\xa9" };
+        for (int i = 0; i < 12; i++) { off[i] = blob.size(); blob += items[i]; blob.push_back('\0'); }
         const uint8_t* ro; gm.place_begin(blob.data(), blob.size(), &ro);
         for (int i = 0; i < 6; i++) key[i] = (const char*)ro + off[i];
+        key[6] = (const char*)ro + off[11];
         lit_s = (const char*)ro + off[6]; lit_long = (const char*)ro + off[7]; lit_empty = (const char*)ro + off[8]; lit_r = (const char*)ro + off[9]; lit_ref = (const char*)ro + off[10];
     }
 };
@@ -75,7 +77,7 @@ bool Exec::apply(const Op& o) {
             case 4: r = LIB(cJSON_CreateBool(5)); m->kind = cJSON_True; break;
             case 5: r = LIB(cJSON_CreateNumber(1)); m->kind = cJSON_Number; m->num = 1; m->vint = 1; break;
             case 6: r = LIB(cJSON_CreateNumber(2.5)); m->kind = cJSON_Number; m->num = 2.5; m->vint = 2; break;
-            case 7: r = LIB(cJSON_CreateString(lits->lit_s)); m->kind = cJSON_String; m->str = "s"; break;
+            case 7: r = LIB(cJSON_CreateString(lits->lit_s)); m->kind = cJSON_String; m->str = "s"; m->cap = 1; break;
             case 8: r = LIB(cJSON_CreateRaw(lits->lit_r)); m->kind = cJSON_Raw; m->str = "r"; break;
             case 9: r = LIB(cJSON_CreateArray()); m->kind = cJSON_Array; break;
             case 10: r = LIB(cJSON_CreateObject()); m->kind = cJSON_Object; break;
@@ -128,7 +130,7 @@ bool Exec::apply(const Op& o) {
     }
     case O_BUILD_OBJ: {   // object with members keyed by the digits of o.a in base 6 (o.b members), values 0,1,2.. ; used for the sort start states
         cJSON* r = LIB(cJSON_CreateObject()); MN* m = w.mk(); m->kind = cJSON_Object; m->real = r; int code = (uint8_t)o.a | ((uint8_t)o.c << 8);
-        for (int i = 0; i < o.b; i++) { int k = code % 6; code /= 6; cJSON* c = LIB(cJSON_CreateNumber(i)); LIBV(cJSON_AddItemToObject(r, KEYS[k], c)); MN* mc = w.mk(); mc->kind = cJSON_Number; mc->num = i; mc->vint = i; mc->haskey = true; mc->key = KEYS[k]; mc->parent = m; mc->real = c; m->kids.push_back(mc); }
+        for (int i = 0; i < o.b; i++) { int k = code % NKEYS; code /= NKEYS; cJSON* c = LIB(cJSON_CreateNumber(i)); LIBV(cJSON_AddItemToObject(r, KEYS[k], c)); MN* mc = w.mk(); mc->kind = cJSON_Number; mc->num = i; mc->vint = i; mc->haskey = true; mc->key = KEYS[k]; mc->parent = m; mc->real = c; m->kids.push_back(mc); }
         add_root(m); return true;
     }
     case O_ADD_ARR: {
@@ -228,7 +230,9 @@ bool Exec::apply(const Op& o) {
             expect((ok != 0) == (c != nullptr), "model:replace-index", "ReplaceItemInArray(" + std::to_string(o.b) + ") returned " + std::to_string(ok) + " with size " + std::to_string(size)); if ((ok != 0) != (c != nullptr)) return true;
         } else {
             x = root(o.c); if (!x || x == root_of(p)) return false; bool cs = o.d != 0; const char* kp; std::string ks;
-            if (o.b == 6) { if (!x->haskey || x->ckey) return false; kp = x->real->string; ks = x->key; } else { kp = lits->key[o.b]; ks = KEYS[o.b]; }
+            if (o.b == 6) { if (!x->haskey || x->ckey) return false; kp = x->real->string; ks = x->key; }
+            else if (o.b == 7) { if (p->kids.empty() || !p->kids[0]->haskey) return false; kp = p->kids[0]->real->string; ks = p->kids[0]->key; }   // key aliases the key of the member that gets replaced
+            else { kp = lits->key[o.b]; ks = KEYS[o.b]; }
             c = find_key(p->kids, ks, cs);
             ok = cs ? LIB(cJSON_ReplaceItemInObjectCaseSensitive(p->real, kp, x->real)) : LIB(cJSON_ReplaceItemInObject(p->real, kp, x->real));
             expect((ok != 0) == (c != nullptr), "model:replace-key", std::string("ReplaceItemInObject(\"") + ks + "\") returned " + std::to_string(ok) + (c ? " although a member matches" : " although no member matches")); if ((ok != 0) != (c != nullptr)) return true;
@@ -250,14 +254,16 @@ bool Exec::apply(const Op& o) {
     case O_SETSTR: {
         MN* n = node(o.a); if (!n) return false; const char* s; std::string sv;
         switch (o.b) { case 0: s = lits->lit_empty; sv = ""; break; case 1: s = lits->lit_s; sv = "s"; break; case 2: s = lits->lit_long; sv = "longer string"; break;
-                       case 3: if (n->kind != cJSON_String || !n->real->valuestring) return false; s = n->real->valuestring; sv = n->str; break; default: return false; }
+                       case 3: if (n->kind != cJSON_String || !n->real->valuestring) return false; s = n->real->valuestring; sv = n->str; break;
+                       case 4: if (n->kind != cJSON_String || n->ref || !n->real->valuestring || n->cap < n->str.size() + 2) return false; s = n->real->valuestring + n->str.size() + 1; sv = s; break;   // stale tail inside the node's own buffer
+                       default: return false; }
         char* before = n->real->valuestring;
         char* r = LIB(cJSON_SetValuestring(n->real, s));
         bool settable = n->kind == cJSON_String && !n->ref;
         if (!settable) { expect(r == nullptr, "model:setvaluestring-nonstring", "SetValuestring succeeded on a node that is not an owned string"); return true; }
         if (o.b == 3) { expect(r == nullptr || r == before, "model:setvaluestring-overlap", "SetValuestring with the node's own string returned a foreign pointer"); return true; }
         expect(r != nullptr && r == n->real->valuestring, "model:setvaluestring-failed", "SetValuestring did not return the node's string");
-        if (r) n->str = sv; return true;
+        if (r) { bool grew = sv.size() > n->str.size(); n->str = sv; if (grew || n->cap == 0) n->cap = grew ? sv.size() : n->cap; } return true;
     }
     case O_SETBOOL: {
         MN* n = node(o.a); if (!n) return false;
@@ -269,7 +275,8 @@ bool Exec::apply(const Op& o) {
     case O_DUP: {
         MN* x = node(o.a); if (!x) return false;
         Walk before = walk(root_of(x)->real, W_ROOT_LINKS | W_NO_OWNED);
-        cJSON* r = LIB(cJSON_Duplicate(x->real, o.b));
+        int recurse_value = o.b == 2 ? 2 : o.b == 3 ? -1 : o.b;   // any non-zero value means recursive
+        cJSON* r = LIB(cJSON_Duplicate(x->real, recurse_value));
         if (!r) { fail("dup:returned-null", "cJSON_Duplicate returned NULL for a small well-formed tree"); return true; }
         MN* d = model_dup(w, x, o.b != 0);
         // bind: walk the copy in the same order as the model copy
